@@ -248,6 +248,7 @@ type CertPlan struct {
 	Serial     *big.Int
 	NoCRLSign  bool // CA only: key usage lacks cRLSign
 	SameName   bool // intermediate CA whose subject DN equals its issuer's (key rollover: self-issued, not self-signed)
+	EmptyName  bool // end-entity certificate with an empty subject DN, named by a critical subjectAltName only (RFC 5280 4.1.2.6)
 	OCSP       []*OCSPSrc
 	CRL        []*CRLSrc
 	Freshest   bool // freshest-CRL extension in the certificate
